@@ -1,6 +1,8 @@
 package main
 
 import (
+	"crypto/ecdsa"
+	ethkittypes "github.com/meshplus/eth-kit/types"
 	"bytes"
 	"encoding/base64"
 	"encoding/json"
@@ -679,6 +681,22 @@ func mon07Case(w *vlog.W, a *wargs, id int, rng *rand.Rand, opts harness.Options
 			shape["fee-failure-after-write"] = true
 		}
 		txs = harness.WireRoundTrip(txs)
+		// balances of the senders before the block (for the fee oracle below)
+		preBal := map[string]*big.Int{}
+		nFrom := map[string]int{}
+		credited := map[string]bool{}
+		for _, tx := range txs {
+			if f := tx.GetFrom(); f != nil {
+				nFrom[f.String()]++
+				if _, ok := preBal[f.String()]; !ok {
+					preBal[f.String()] = new(big.Int).Set(world.R.ViewL.GetBalance(f))
+				}
+			}
+			if t := tx.GetTo(); t != nil {
+				credited[t.String()] = true
+			}
+		}
+		world.R.ViewL.Clear()
 		// copy of the pre-state for the shadow replica
 		world.R.Close()
 		os.RemoveAll(shadowDir)
@@ -714,6 +732,31 @@ func mon07Case(w *vlog.W, a *wargs, id int, rng *rand.Rand, opts harness.Options
 			}
 		}
 		w.Count("failed_txs", int64(nFailed))
+		// ---- fee oracle: a failed transaction costs its sender exactly the fee (gas used x gas price), or the
+		// whole balance when that does not cover the fee. Decidable when the sender has no other transaction
+		// in the block, is not a fee-receiving admin and is not the addressee of any transaction of the block.
+		for i, rc := range res.Receipts {
+			f := txs[i].GetFrom()
+			if rc.Status != pb.Receipt_FAILED || f == nil || nFrom[f.String()] != 1 || admins[f.String()] || credited[f.String()] {
+				continue
+			}
+			price := new(big.Int).SetUint64(world.R.Cfg.Genesis.BvmGasPrice)
+			kind := "bvm"
+			if et, ok := txs[i].(*ethkittypes.EthTransaction); ok {
+				price, kind = et.GetGasPrice(), "eth"
+			}
+			fee := new(big.Int).Mul(new(big.Int).SetUint64(rc.GasUsed), price)
+			want := new(big.Int).Sub(preBal[f.String()], fee)
+			if want.Sign() < 0 {
+				want = big.NewInt(0)
+			}
+			got := world.R.ViewL.GetBalance(f)
+			w.Count("obs_failed_tx_fee_checks:"+kind, 1)
+			if got.Cmp(want) != 0 {
+				viol("failed-tx:balance-effect-beyond-fee:"+kind, fmt.Sprintf("block %d tx %d (%s) FAILED with gas used %d at price %v: its sender %s had %v before the block and has %v after it, nonce-and-fee only would leave %v; receipt: %.80s", h, i, describeTx(txs[i]), rc.GasUsed, price, f.String(), preBal[f.String()], got, want, string(rc.Ret)), map[string]interface{}{"block": descs})
+			}
+		}
+		world.R.ViewL.Clear()
 		for chain, sl := range res.Meta.Counter {
 			for _, vi := range sl.Slice {
 				w.Count("obs_delivery_entries", 1)
@@ -732,6 +775,22 @@ func mon07Case(w *vlog.W, a *wargs, id int, rng *rand.Rand, opts harness.Options
 		for i, tx := range txs {
 			if !failedIdx[uint64(i)] {
 				txs2 = append(txs2, tx)
+				continue
+			}
+			if et, isEth := tx.(*ethkittypes.EthTransaction); isEth {
+				// null failure of an Ethereum-format sender: same nonce, no gas - rejected before anything is bought
+				var ek *ecdsa.PrivateKey
+				for _, n := range []string{"eth-0", "eth-1"} {
+					if harness.EthAddr(harness.EthKey(n)).String() == tx.GetFrom().String() {
+						ek = harness.EthKey(n)
+					}
+				}
+				if ek == nil {
+					usable = false
+					break
+				}
+				exempt[tx.GetFrom().String()] = true
+				txs2 = append(txs2, harness.EthTx(ek, world.R.Cfg.Genesis.ChainID, et.GetNonce(), 0, big.NewInt(0), big.NewInt(0), harness.EthAddr(harness.EthKey("eth-receiver")), nil, et.GetTimeStamp()))
 				continue
 			}
 			k := keyOf(tx.GetFrom())
@@ -805,6 +864,30 @@ func mon07Case(w *vlog.W, a *wargs, id int, rng *rand.Rand, opts harness.Options
 				}
 			}
 			cls := classifyKeys(diffs)
+			// one narrow class has a signature of its own (it is a known finding): the only trace is an account
+			// record with zero balance, zero nonce and no code at an address that has no record in the shadow
+			onlyEmptyAccounts := true
+			for k, v := range d1 {
+				if w2, ok := d2[k]; ok && bytes.Equal(v, w2) || strings.HasPrefix(k, "journal-") {
+					continue
+				}
+				x := &ledger2.InnerAccount{Balance: big.NewInt(0)}
+				if _, inShadow := d2[k]; inShadow || !strings.HasPrefix(k, "account-") || exempt[k[len("account-"):]] && false || x.Unmarshal(v) != nil ||
+					x.Nonce != 0 || (x.Balance != nil && x.Balance.Sign() != 0) || len(x.CodeHash) != 0 {
+					if strings.HasPrefix(k, "account-") && exempt[k[len("account-"):]] {
+						continue
+					}
+					onlyEmptyAccounts = false
+				}
+			}
+			for k := range d2 {
+				if _, ok := d1[k]; !ok && !strings.HasPrefix(k, "journal-") {
+					onlyEmptyAccounts = false
+				}
+			}
+			if onlyEmptyAccounts {
+				cls = "empty-account-record-created"
+			}
 			viol("failed-tx:state-effect:"+cls, fmt.Sprintf("block %d: replacing the FAILED transactions by null failures of the same sender and nonce changes the resulting state beyond sender/admin balances; differing keys: %v; failed txs: %v", h, diffs, fd), map[string]interface{}{"block": descs})
 		}
 		shape[fmt.Sprintf("failed%d", min(nFailed, 5))] = true
